@@ -155,6 +155,48 @@ def forced_cells(tier):
     return cells
 
 
+def detach_collisions(ctx, rng):
+    """payloads whose base64url text also occurs inside (or at the end of) the header segment: detaching removes the payload segment and
+    nothing else"""
+    from .. import gen
+    from refjose.prim import b64u_enc as enc64
+    j = J.load()
+    key = j.key(gen.new_oct(256))
+    headers = [{"alg": "HS256"}, {"alg": "HS256", "typ": "JWT"}, {"typ": "JWT", "alg": "HS256"}, {"alg": "HS256", "kid": "2024-01"}, {"alg": "HS256", "kid": "k"},
+               {"alg": "HS256", "cty": "a}"}, {"alg": "HS256", "typ": "JOSE", "kid": "xy"}]
+    for h in headers:
+        probe = call(j.jws.serialize_compact, dict(h), b"x", key, algorithms=["HS256"])
+        if not probe.ok:
+            continue
+        p64 = probe.value.split(".")[0]
+        windows = {p64[i:i + 4] for i in range(0, len(p64) - 3, 4)} | {p64[-2:], p64[-3:], p64[-4:], p64[:4], p64[:8], p64}
+        for w in sorted(windows):
+            try:
+                payload = b64u_dec(w)
+            except Exception:
+                continue
+            if enc64(payload) != w or not payload:
+                continue
+            ctx.ev()
+            t = call(j.jws.serialize_compact, dict(h), payload, key, algorithms=["HS256"])
+            if not t.ok:
+                continue
+            for tok in (t.value,):   # detach_content takes a str or a JSON serialization dict
+                det = call(j.jws.detach_content, tok)
+                ctx.count("detach_checked")
+                ctx.count("detach_collision_cases")
+                ctx.nontrivial(("detach-collision", json.dumps(h), w))
+                case = {"header": h, "payload": payload, "token": t.value}
+                if not det.ok:
+                    ctx.violation(f"detach-raises:{det.key}", f"detach_content raised {det.exc!r}", case)
+                    continue
+                dv = det.value.decode() if isinstance(det.value, (bytes, bytearray)) else det.value
+                a, b = t.value.split("."), dv.split(".")
+                if not (len(b) == 3 and b[1] == "" and a[0] == b[0] and a[2] == b[2]):
+                    ctx.violation("detach-alters", f"detach_content of a token whose payload segment {w!r} also occurs in its header segment gives {dv[:90]!r} "
+                                  f"(header / signature changed or payload kept)", case)
+
+
 def scale_cases(ctx, rng):
     """big and many: payloads of several MB, dozens of signatures, a key set of hundreds of keys, header values of 100 kB"""
     from .. import gen
@@ -234,6 +276,8 @@ def run_shard(ctx):
     rng = ctx.rng
     if ctx.shard == 2:
         scale_cases(ctx, rng)
+    if ctx.shard == 3:
+        detach_collisions(ctx, rng)
     forced = forced_cells(ctx.tier)
     for idx, kw in enumerate(forced):
         if idx % ctx.nshards != ctx.shard:
